@@ -40,6 +40,7 @@ def outcomeToJson : Tx.Outcome → Json
   | .syntaxError => Json.mkObj [("err", "syntax")]
   | .semanticError .multAssign => Json.mkObj [("err", "semantic:Multiple assignments")]
   | .semanticError _ => Json.mkObj [("err", "semantic:None")]
+  | .indexError => Json.mkObj [("other", "IndexError")]
   | .fuel => fuelOut
   | .bad w => Json.mkObj [("bad", w)]
 
